@@ -1,7 +1,10 @@
 #!/usr/bin/env bash
-# usage: try_mutant.sh <seeded dir> <prop> [<prop> ...]  -- apply patch to /repo, run checks, revert
+# usage: try_mutant.sh <seeded dir> <prop> [<prop> ...]  -- apply patch to /repo, run checks, revert.
+# Evidence files are saved and restored: evidence committed under /verif must come from the unchanged tree.
 D="$(cd "$1" && pwd)"; shift
-git -C /repo apply "$D/patch.diff" || { echo "patch does not apply"; exit 3; }
+BK="$(mktemp -d /root/scratch/evbk.XXXX)"; cp -a /verif/evidence/. "$BK"/
+git -C /repo apply "$D/patch.diff" || { echo "patch does not apply"; rm -rf "$BK"; exit 3; }
 for p in "$@"; do ( cd /verif && ./check $p quick 2>&1 | grep -E "^(VIOLATION|UNDECIDED|CHECKER|KNOWN|\[)" | head -8; echo "exit=${PIPESTATUS[0]}" ); done
 git -C /repo checkout -- .
 git -C /repo status --short | head -3
+rm -rf /verif/evidence; mkdir -p /verif/evidence; cp -a "$BK"/. /verif/evidence/; rm -rf "$BK"
